@@ -2,7 +2,7 @@
 
 use futures_core::Stream;
 
-use super::core::{AsyncWaiter, STATE_CANCELLED, STATE_WAITING};
+use super::core::{AsyncWaiter, STATE_CANCELLED, STATE_CLOSED_BUFFERED, STATE_WAITING};
 use super::{AsyncReceiver, AsyncSender};
 use crate::error::{BatchSendErrorReason, SendBatchError, SendError, TrySendError};
 use crate::RecvError;
@@ -37,6 +37,14 @@ impl<'a, T: Send> SendFuture<'a, T> {
       is_registered: false,
       _phantom: PhantomPinned,
     }
+  }
+
+  /// For an operation started on a handle that was already closed: the first poll takes the
+  /// regular "finished, closed" path and resolves with the closed/disconnected error.
+  pub(super) fn rejected(mut self) -> Self {
+    self.state = AtomicU8::new(STATE_CLOSED_BUFFERED);
+    self.is_registered = true;
+    self
   }
 }
 
@@ -185,6 +193,14 @@ impl<'a, T: Send> SendBatchFuture<'a, T> {
       is_registered: false,
       _phantom: PhantomPinned,
     }
+  }
+
+  /// For an operation started on a handle that was already closed: the first poll takes the
+  /// regular "finished, closed" path and resolves with the closed/disconnected error.
+  pub(super) fn rejected(mut self) -> Self {
+    self.state = AtomicU8::new(STATE_CLOSED_BUFFERED);
+    self.is_registered = true;
+    self
   }
 }
 
@@ -379,6 +395,14 @@ impl<'a, T: Send> SendBatchMutFuture<'a, T> {
       _phantom: PhantomPinned,
     }
   }
+
+  /// For an operation started on a handle that was already closed: the first poll takes the
+  /// regular "finished, closed" path and resolves with the closed/disconnected error.
+  pub(super) fn rejected(mut self) -> Self {
+    self.state = AtomicU8::new(STATE_CLOSED_BUFFERED);
+    self.is_registered = true;
+    self
+  }
 }
 
 impl<T: Send> Drop for SendBatchMutFuture<'_, T> {
@@ -550,6 +574,14 @@ impl<'a, T: Send> RecvBatchFuture<'a, T> {
       _phantom: PhantomPinned,
     }
   }
+
+  /// For an operation started on a handle that was already closed: the first poll takes the
+  /// regular "finished, closed" path and resolves with the closed/disconnected error.
+  pub(super) fn rejected(mut self) -> Self {
+    self.state = AtomicU8::new(STATE_CLOSED_BUFFERED);
+    self.is_registered = true;
+    self
+  }
 }
 
 impl<'a, T: Send> Future for RecvBatchFuture<'a, T> {
@@ -645,6 +677,14 @@ impl<'a, T: Send> RecvBatchMutFuture<'a, T> {
       _phantom: PhantomPinned,
     }
   }
+
+  /// For an operation started on a handle that was already closed: the first poll takes the
+  /// regular "finished, closed" path and resolves with the closed/disconnected error.
+  pub(super) fn rejected(mut self) -> Self {
+    self.state = AtomicU8::new(STATE_CLOSED_BUFFERED);
+    self.is_registered = true;
+    self
+  }
 }
 
 impl<'a, T: Send> Future for RecvBatchMutFuture<'a, T> {
@@ -735,6 +775,14 @@ impl<'a, T: Send> RecvFuture<'a, T> {
       is_registered: false,
       _phantom: PhantomPinned,
     }
+  }
+
+  /// For an operation started on a handle that was already closed: the first poll takes the
+  /// regular "finished, closed" path and resolves with the closed/disconnected error.
+  pub(super) fn rejected(mut self) -> Self {
+    self.state = AtomicU8::new(STATE_CLOSED_BUFFERED);
+    self.is_registered = true;
+    self
   }
 }
 
